@@ -23,6 +23,7 @@ Anything outside the accepted shapes raises TieBroken; nothing is guessed.
 import ast
 
 from .pyexpr import ExprT, TieBroken, find_class, find_func, strip_doc, strip_logging, sha
+from .normalize import parse_file, parse as norm_parse
 
 SRC_TCP = 'bobocep/dist/tcp.py'
 SRC_DEV = 'bobocep/dist/devman.py'
@@ -526,8 +527,7 @@ def incoming_reset(fn):
 # ---------------------------------------------------------------------------
 
 def translate(repo):
-    src = (repo / SRC_TCP).read_text()
-    tree = ast.parse(src)
+    src, tree = parse_file(repo, SRC_TCP)
     consts = module_int_consts(tree, list(TYPE_NAMES) + ['_FLAG_RESET'])
     module_str_consts(tree, list(KEYS))
     cls = find_class(tree, 'BoboDistributedTCP')
@@ -541,8 +541,7 @@ def translate(repo):
     reset_test = incoming_reset(in_fn)
     now_fn = find_func(cls, '_now')
 
-    dsrc = (repo / SRC_DEV).read_text()
-    dtree = ast.parse(dsrc)
+    dsrc, dtree = parse_file(repo, SRC_DEV)
     dcls = find_class(dtree, 'BoboDeviceManager')
     dm = devman(dcls)
 
